@@ -415,6 +415,20 @@ impl SubCheck for DtLeap {
             ensure_eq!(ndt.hour12(), h12, "NaiveDateTime::hour12 of {t:?}");
             ensure_eq!(zdt.hour12(), h12, "DateTime::hour12 of {t:?}");
         }
+        // the std::time::Duration operator forms of the date-time wrapper follow the same rules
+        if d >= 0 {
+            let sd = td.to_std().map_err(|_| "harness: to_std")?;
+            for neg in [false, true] {
+                let want = call("checked form", || if neg { ndt.checked_sub_signed(td) } else { ndt.checked_add_signed(td) })?;
+                if let Some(w) = want {
+                    ensure_eq!(call("NaiveDateTime std Duration operator", || if neg { ndt - sd } else { ndt + sd })?, w, "NaiveDateTime {} std::time::Duration of {d} ns on {t:?}", if neg { "-" } else { "+" });
+                    let mut x = ndt;
+                    call("NaiveDateTime std Duration assign", || if neg { x -= sd } else { x += sd })?;
+                    ensure_eq!(x, w, "NaiveDateTime {}= std::time::Duration of {d} ns on {t:?}", if neg { "-" } else { "+" });
+                    ensure_eq!(call("DateTime std Duration operator", || if neg { ndt.and_utc() - sd } else { ndt.and_utc() + sd })?.naive_utc(), w, "DateTime<Utc> {} std::time::Duration of {d} ns on {t:?}", if neg { "-" } else { "+" });
+                }
+            }
+        }
         for (name, dd, neg) in [("checked_add_signed", d, false), ("checked_sub_signed", -d, true)] {
             let (et, carry) = model_add(t, dd);
             obs.nt_if(carry != 0, "day_carry");
